@@ -1260,30 +1260,30 @@ Qed.
 
 Lemma handler_decision_table_lemma decode accepted sb r :
   (enc_ok r = false -> serve decode accepted sb r = HOut 415 None None) /\
-  (enc_ok r = true -> decode (h_body r) = None -> serve decode accepted sb r = HOut 400 None None) /\
-  (forall d, enc_ok r = true -> decode (h_body r) = Some d -> str_eqb (h_method r) post = false ->
+  (enc_ok r = true -> read_body decode r = None -> serve decode accepted sb r = HOut 400 None None) /\
+  (forall d, enc_ok r = true -> read_body decode r = Some d -> str_eqb (h_method r) post = false ->
      serve decode accepted sb r = HOut 405 None None) /\
-  (forall d, enc_ok r = true -> decode (h_body r) = Some d -> str_eqb (h_method r) post = true ->
+  (forall d, enc_ok r = true -> read_body decode r = Some d -> str_eqb (h_method r) post = true ->
      parse_proto_msg (eff_ctype r) = None -> serve decode accepted sb r = HOut 415 None None) /\
-  (forall d t, enc_ok r = true -> decode (h_body r) = Some d -> str_eqb (h_method r) post = true ->
+  (forall d t, enc_ok r = true -> read_body decode r = Some d -> str_eqb (h_method r) post = true ->
      parse_proto_msg (eff_ctype r) = Some t -> existsb (mtype_eqb t) accepted = false ->
      serve decode accepted sb r = HOut 415 None None) /\
-  (forall d t, enc_ok r = true -> decode (h_body r) = Some d -> str_eqb (h_method r) post = true ->
+  (forall d t, enc_ok r = true -> read_body decode r = Some d -> str_eqb (h_method r) post = true ->
      parse_proto_msg (eff_ctype r) = Some t -> existsb (mtype_eqb t) accepted = true ->
      serve decode accepted sb r = HOut (store_status sb) (Some (store_written sb)) (Some (t, d))).
 Proof.
-  unfold enc_ok, eff_ctype, store_status, store_written, serve, serve_inner.
+  unfold enc_ok, eff_ctype, store_status, store_written, read_body, serve, serve_inner.
   repeat split.
   - intros E. apply orb_false_iff in E. destruct E as [E1 E2]. rewrite E1, E2. reflexivity.
-  - intros E D. apply orb_true_iff in E. rewrite D.
+  - intros E D. apply orb_true_iff in E. destruct (h_body_err r); [|rewrite D];
+      destruct E as [E|E]; rewrite E; simpl; try reflexivity; rewrite andb_false_r; reflexivity.
+  - intros d E D M. apply orb_true_iff in E. destruct (h_body_err r); [discriminate D|]. rewrite D, M.
     destruct E as [E|E]; rewrite E; simpl; [reflexivity|rewrite andb_false_r; reflexivity].
-  - intros d E D M. apply orb_true_iff in E. rewrite D, M.
+  - intros d E D M P. apply orb_true_iff in E. destruct (h_body_err r); [discriminate D|]. rewrite D, M, P.
     destruct E as [E|E]; rewrite E; simpl; [reflexivity|rewrite andb_false_r; reflexivity].
-  - intros d E D M P. apply orb_true_iff in E. rewrite D, M, P.
+  - intros d t E D M P A. apply orb_true_iff in E. destruct (h_body_err r); [discriminate D|]. rewrite D, M, P, A.
     destruct E as [E|E]; rewrite E; simpl; [reflexivity|rewrite andb_false_r; reflexivity].
-  - intros d t E D M P A. apply orb_true_iff in E. rewrite D, M, P, A.
-    destruct E as [E|E]; rewrite E; simpl; [reflexivity|rewrite andb_false_r; reflexivity].
-  - intros d t E D M P A. apply orb_true_iff in E. rewrite D, M, P, A.
+  - intros d t E D M P A. apply orb_true_iff in E. destruct (h_body_err r); [discriminate D|]. rewrite D, M, P, A.
     destruct E as [E|E]; rewrite E; simpl; try rewrite andb_false_r;
       destruct (sb_nil sb); simpl; destruct (sb_err sb); reflexivity.
 Qed.
@@ -1312,7 +1312,7 @@ Proof.
   fold (enc_ok r).
   destruct (enc_ok r) eqn:E.
   2:{ rewrite (T1 eq_refl). simpl. reflexivity. }
-  destruct (decode (h_body r)) as [d|] eqn:D.
+  destruct (read_body decode r) as [d|] eqn:D.
   2:{ rewrite (T2 eq_refl eq_refl). simpl. rewrite ?orb_true_r. reflexivity. }
   destruct (str_eqb (h_method r) post) eqn:M.
   2:{ rewrite (T3 d eq_refl eq_refl eq_refl). simpl. reflexivity. }
@@ -1340,11 +1340,11 @@ Lemma handler_passes_decompressed_payload_lemma accepted sb ctype cenc payload t
   is_empty cenc || str_eqb cenc snappy_name = true ->
   parse_proto_msg (if is_empty ctype then app_proto else ctype) = Some t ->
   existsb (mtype_eqb t) accepted = true ->
-  serve decode accepted sb (mkHReq post ctype cenc (encode payload)) =
+  serve decode accepted sb (mkHReq post ctype cenc (encode payload) false) =
   HOut (store_status sb) (Some (store_written sb)) (Some (t, payload)).
 Proof.
   intros E P A.
-  destruct (handler_decision_table_lemma decode accepted sb (mkHReq post ctype cenc (encode payload))) as (_ & _ & _ & _ & _ & T6).
+  destruct (handler_decision_table_lemma decode accepted sb (mkHReq post ctype cenc (encode payload) false)) as (_ & _ & _ & _ & _ & T6).
   apply T6; auto. simpl. apply roundtrip.
 Qed.
 End Decompress.
@@ -1352,7 +1352,7 @@ End Decompress.
 (* a store that returns (nil, err) is answered 500 with zero statistics headers (fixed defect: the handler used to
    dereference the nil *WriteResponse) *)
 Lemma handler_nil_store_response_lemma decode accepted r d t err :
-  enc_ok r = true -> decode (h_body r) = Some d -> str_eqb (h_method r) post = true ->
+  enc_ok r = true -> read_body decode r = Some d -> str_eqb (h_method r) post = true ->
   parse_proto_msg (eff_ctype r) = Some t -> existsb (mtype_eqb t) accepted = true ->
   serve decode accepted (mkSB true 0 0 0 0 err) r = HOut (if err then 500 else 204) (Some (0, 0, 0)) (Some (t, d)).
 Proof.
